@@ -102,42 +102,51 @@ def encode_on_big_endian_memory(lines: List[str], leaves: List[Tuple[str, Any]],
         n = 1 if isinstance(t, G.TBool) else 8 if isinstance(t, G.TByte) else t.n if isinstance(t, (G.TUint, G.TInt)) else t.d.nbits
         size = 1 if isinstance(t, G.TBool) else storage_size(n)
         cells[path] = (int(v) & ((1 << (8 * size)) - 1), size)
+    signed = {p for p, t in leaves if isinstance(t, G.TInt)}
+    ops = parse_be_ops(lines)
+    if ops is None:
+        return None
     out = [0] * nbytes
-    for l in lines:
-        m = RE["c_enc_le"].match(l)
-        if m:
-            si, assign, chain, fi = int(m.group(1)), m.group(2) == "=", m.group(3), int(m.group(4))
-            k, mask = sh(m.group(5), m.group(6)), int(m.group(7))
-            if chain not in cells or si >= nbytes:
+    for (ptr, si, assign, chain, a, k, mask) in ops:
+        if chain not in cells or si >= nbytes:
+            return None
+        val, size = cells[chain]
+        if ptr:
+            if a >= size:
                 return None
-            val, size = cells[chain]
-            if fi >= size:
-                return None
-            byte = (val >> (8 * (size - 1 - fi))) & 0xFF  # big-endian cell
-            x = ((byte >> k) if k >= 0 else (byte << -k)) & mask & 0xFF
+            u = (val >> (8 * (size - 1 - a))) & 0xFF  # byte `a` of a big-endian cell
         else:
-            m = RE["c_enc_be"].match(l)
-            if not m:
-                return None
-            si, assign, utype, chain = int(m.group(1)), m.group(2) == "=", m.group(3).strip(), m.group(4)
-            k, mask = sh(m.group(5), m.group(6)), int(m.group(7))
-            if chain not in cells or utype not in UTYPE_BITS or si >= nbytes:
-                return None
-            val, size = cells[chain]
-            bits = UTYPE_BITS[utype]
-            # conversion of the (sign-extended) cell to the unsigned type
-            sval = val - (1 << (8 * size)) if (val >> (8 * size - 1)) and _is_signed_cell(leaves, chain) else val
-            u = sval & ((1 << bits) - 1)
-            x = ((u >> k) if k >= 0 else (u << -k)) & mask & 0xFF
+            # conversion of the (sign-extended) cell to the unsigned type of `a` bits
+            sval = val - (1 << (8 * size)) if (val >> (8 * size - 1)) and chain in signed else val
+            u = sval & ((1 << a) - 1)
+        x = ((u >> k) if k >= 0 else (u << -k)) & mask & 0xFF
         out[si] = x if assign else (out[si] | x)
     return bytes(out)
 
 
-def _is_signed_cell(leaves: List[Tuple[str, Any]], chain: str) -> bool:
-    for p, t in leaves:
-        if p == chain:
-            return isinstance(t, G.TInt)
-    return False
+_BE_OPS_CACHE: Dict[int, Any] = {}
+
+
+def parse_be_ops(lines: List[str]) -> Optional[List[Tuple[bool, int, bool, str, int, int, int]]]:
+    """(pointer item?, s index, `=`?, field, byte index | bits of the unsigned type, shift, mask) per statement; cached per list"""
+    key = id(lines)
+    if key in _BE_OPS_CACHE and _BE_OPS_CACHE[key][0] is lines:
+        return _BE_OPS_CACHE[key][1]
+    ops: Optional[List[Tuple[bool, int, bool, str, int, int, int]]] = []
+    for l in lines:
+        m = RE["c_enc_le"].match(l)
+        if m:
+            ops.append((True, int(m.group(1)), m.group(2) == "=", m.group(3), int(m.group(4)), sh(m.group(5), m.group(6)), int(m.group(7))))
+            continue
+        m = RE["c_enc_be"].match(l)
+        if not m or m.group(3).strip() not in UTYPE_BITS:
+            ops = None
+            break
+        ops.append((False, int(m.group(1)), m.group(2) == "=", m.group(4), UTYPE_BITS[m.group(3).strip()], sh(m.group(5), m.group(6)), int(m.group(7))))
+    if len(_BE_OPS_CACHE) > 64:
+        _BE_OPS_CACHE.clear()
+    _BE_OPS_CACHE[key] = (lines, ops)
+    return ops
 
 
 def go_function_bodies(text: str, name: str) -> Dict[str, List[str]]:
@@ -392,6 +401,11 @@ def check_opmode(run: common.Run, drv: common.Driver, rng: random.Random, sc: R.
             # megabytes of straight-line C: compiled without optimisation (the statements are what is under test, not gcc)
             exec_configs_k = [{"name": "O-little(-O0)", "endian": "little", "cflags": ("-O0",)},
                               {"name": "O-both-BP_BIG_ENDIAN(-O0)", "endian": "both", "cflags": ("-O0", "-DBP_BIG_ENDIAN")}]
+        elif len(c_both) > 250000:
+            # long straight-line functions: gcc -O2 needs minutes for them and is not what is under test
+            exec_configs_k = [dict(cfg, name=cfg["name"] + "(-O0)", cflags=tuple("-O0" if f.startswith("-O") else f for f in cfg.get("cflags", ("-O2",))))
+                              for cfg in exec_configs]
+            run.count("opmode:long-functions-compiled-at-O0")
         else:
             exec_configs_k = exec_configs
         jobs = []
@@ -438,16 +452,20 @@ def check_opmode(run: common.Run, drv: common.Driver, rng: random.Random, sc: R.
                     run.violation(dict(rep, kind="impl-vs-spec", expected_by_spec={"decode": v}, observed_impl={"decode": dv}))
         # what the `--endian both` and `--endian big` outputs do in BIG-endian memory (evaluated, see encode_on_big_endian_memory)
         if not overdriven:
+            per_msg: Dict[int, Any] = {}
             for j, (m, v) in enumerate(jobs):
                 spec = ans[2 * j]
                 if "ok" not in spec:
                     continue
-                cl2: List[Tuple[str, Any]] = []
-                C.leaves(G.TRef(m), "(*m)", cl2)
+                if id(m) not in per_msg:
+                    cl2: List[Tuple[str, Any]] = []
+                    C.leaves(G.TRef(m), "(*m)", cl2)
+                    per_msg[id(m)] = (cl2, [(variant, be_build_lines(ctext, G.c_name(m)))
+                                            for variant, ctext in (("--endian both, BP_BIG_ENDIAN defined", c_both), ("--endian big", c_be))])
+                cl2, variants = per_msg[id(m)]
                 flat: List[int] = []
                 C.flat_values(G.TRef(m), v, flat)
-                for variant, ctext in (("--endian both, BP_BIG_ENDIAN defined", c_both), ("--endian big", c_be)):
-                    lines_be = be_build_lines(ctext, G.c_name(m))
+                for variant, lines_be in variants:
                     got = encode_on_big_endian_memory(lines_be, cl2, flat, (G.msg_nbits(m) + 7) // 8) if lines_be is not None else None
                     if got is None:
                         run.count("be-memory-evaluation:outside-the-subset")
